@@ -16,6 +16,89 @@
 #include "EbDefinitions.h"
 #include "EbThreads.h"
 
+
+#ifdef SVT_AV1_VERIF
+/* Verification hook H2 (guarded, add-only): event trace of the system resource manager.  Every event is
+ * appended while the SRM lock that protects the corresponding state is held, and under one trace mutex, so the
+ * trace is a linearisation of the SRM history.  Enabled by SVT_VERIF_SRM_TRACE=<file>; dumped at exit or by
+ * svt_verif_srm_trace_flush().  ops: 1 post_full 2 assign(obj->fifo) 3 got_empty 4 got_full 5 release
+ * 6 inc_live 7 shutdown(fifo) 8 got_shutdown(fifo) 9 request(fifo queued) 10 release_enable 11 release_disable
+ * 12 returned to the empty pool */
+#include <pthread.h>
+#include <stdio.h>
+#include <stdlib.h>
+typedef struct {
+    uint8_t  op;
+    uint8_t  flag;
+    uint32_t live;
+    uint32_t tid;
+    void *   res, *obj, *fifo;
+} VerifSrmEv;
+static pthread_mutex_t   verif_srm_mx    = PTHREAD_MUTEX_INITIALIZER;
+static VerifSrmEv *      verif_srm_buf   = NULL;
+static size_t            verif_srm_n     = 0, verif_srm_cap = 0;
+static volatile int      verif_srm_state = 0; /* 0 unknown 1 off 2 on */
+static int               verif_srm_overflow = 0;
+static const char *      verif_srm_path  = NULL;
+static volatile uint32_t verif_srm_tid_next = 0;
+static __thread uint32_t verif_srm_tid   = 0;
+EB_API void svt_verif_srm_trace_flush(void) {
+    if (verif_srm_state != 2 || !verif_srm_path)
+        return;
+    pthread_mutex_lock(&verif_srm_mx);
+    FILE *f = fopen(verif_srm_path, "w");
+    if (f) {
+        for (size_t i = 0; i < verif_srm_n; i++) {
+            VerifSrmEv *e = &verif_srm_buf[i];
+            fprintf(f, "%u %p %p %p %u %u %u\n", e->op, e->res, e->obj, e->fifo, e->live, e->flag, e->tid);
+        }
+        if (verif_srm_overflow)
+            fprintf(f, "OVERFLOW\n");
+        fclose(f);
+    }
+    pthread_mutex_unlock(&verif_srm_mx);
+}
+static void verif_srm_ev(int op, const void *res, const void *obj, const void *fifo, uint32_t live, int flag) {
+    if (verif_srm_state == 1)
+        return;
+    pthread_mutex_lock(&verif_srm_mx);
+    if (verif_srm_state == 0) {
+        verif_srm_path  = getenv("SVT_VERIF_SRM_TRACE");
+        verif_srm_state = verif_srm_path ? 2 : 1;
+        if (verif_srm_state == 2) {
+            verif_srm_cap = 1u << 16;
+            verif_srm_buf = malloc(verif_srm_cap * sizeof(VerifSrmEv));
+            atexit(svt_verif_srm_trace_flush);
+        }
+    }
+    if (verif_srm_state == 2 && verif_srm_buf) {
+        if (verif_srm_n == verif_srm_cap) {
+            if (verif_srm_cap >= (1u << 24))
+                verif_srm_overflow = 1;
+            else {
+                VerifSrmEv *nb = realloc(verif_srm_buf, 2 * verif_srm_cap * sizeof(VerifSrmEv));
+                if (nb) {
+                    verif_srm_buf = nb;
+                    verif_srm_cap *= 2;
+                } else
+                    verif_srm_overflow = 1;
+            }
+        }
+        if (!verif_srm_overflow) {
+            if (!verif_srm_tid)
+                verif_srm_tid = __sync_add_and_fetch(&verif_srm_tid_next, 1);
+            VerifSrmEv *e = &verif_srm_buf[verif_srm_n++];
+            e->op = (uint8_t)op; e->flag = (uint8_t)flag; e->live = live; e->tid = verif_srm_tid;
+            e->res = (void *)res; e->obj = (void *)obj; e->fifo = (void *)fifo;
+        }
+    }
+    pthread_mutex_unlock(&verif_srm_mx);
+}
+#define SVT_VERIF_SRM(op, res, obj, fifo, live, flag) verif_srm_ev((op), (res), (obj), (fifo), (live), (flag))
+#else
+#define SVT_VERIF_SRM(op, res, obj, fifo, live, flag)
+#endif
+
 static void svt_fifo_dctor(EbPtr p) {
     EbFifo *obj = (EbFifo *)p;
     EB_DESTROY_SEMAPHORE(obj->counting_semaphore);
@@ -89,6 +172,7 @@ static EbErrorType svt_fifo_shutdown(EbFifo *fifo_ptr) {
     // Acquire lockout Mutex
     svt_block_on_mutex(fifo_ptr->lockout_mutex);
     fifo_ptr->quit_signal = EB_TRUE;
+    SVT_VERIF_SRM(7, fifo_ptr->queue_ptr, NULL, fifo_ptr, 0, 0);
     // Release Mutex
     svt_release_mutex(fifo_ptr->lockout_mutex);
     //Wake up the waiting process if any
@@ -250,6 +334,7 @@ static EbErrorType svt_muxing_queue_assignation(EbMuxingQueue *queue_ptr) {
 
         // Put the object on the fifo
         svt_fifo_push_back(process_fifo_ptr, wrapper_ptr);
+        SVT_VERIF_SRM(2, queue_ptr, wrapper_ptr, process_fifo_ptr, wrapper_ptr->live_count, 0);
 
         // Release the Process Fifo's Mutex
         svt_release_mutex(process_fifo_ptr->lockout_mutex);
@@ -314,6 +399,7 @@ EbErrorType svt_object_release_enable(EbObjectWrapper *wrapper_ptr) {
     svt_block_on_mutex(wrapper_ptr->system_resource_ptr->empty_queue->lockout_mutex);
 
     wrapper_ptr->release_enable = EB_TRUE;
+    SVT_VERIF_SRM(10, wrapper_ptr->system_resource_ptr->empty_queue, wrapper_ptr, NULL, wrapper_ptr->live_count, 0);
 
     svt_release_mutex(wrapper_ptr->system_resource_ptr->empty_queue->lockout_mutex);
 
@@ -340,6 +426,7 @@ EbErrorType svt_object_release_disable(EbObjectWrapper *wrapper_ptr) {
     svt_block_on_mutex(wrapper_ptr->system_resource_ptr->empty_queue->lockout_mutex);
 
     wrapper_ptr->release_enable = EB_FALSE;
+    SVT_VERIF_SRM(11, wrapper_ptr->system_resource_ptr->empty_queue, wrapper_ptr, NULL, wrapper_ptr->live_count, 0);
 
     svt_release_mutex(wrapper_ptr->system_resource_ptr->empty_queue->lockout_mutex);
 
@@ -366,6 +453,7 @@ EbErrorType svt_object_inc_live_count(EbObjectWrapper *wrapper_ptr, uint32_t inc
     svt_block_on_mutex(wrapper_ptr->system_resource_ptr->empty_queue->lockout_mutex);
 
     wrapper_ptr->live_count += increment_number;
+    SVT_VERIF_SRM(6, wrapper_ptr->system_resource_ptr->empty_queue, wrapper_ptr, NULL, wrapper_ptr->live_count, 0);
 
     svt_release_mutex(wrapper_ptr->system_resource_ptr->empty_queue->lockout_mutex);
 
@@ -516,6 +604,7 @@ static EbErrorType svt_release_process(EbFifo *process_fifo_ptr) {
 
     svt_block_on_mutex(process_fifo_ptr->queue_ptr->lockout_mutex);
 
+    SVT_VERIF_SRM(9, process_fifo_ptr->queue_ptr, NULL, process_fifo_ptr, 0, 0);
     svt_circular_buffer_push_front(process_fifo_ptr->queue_ptr->process_queue, process_fifo_ptr);
 
     svt_muxing_queue_assignation(process_fifo_ptr->queue_ptr);
@@ -544,6 +633,7 @@ EbErrorType svt_post_full_object(EbObjectWrapper *object_ptr) {
 
     svt_block_on_mutex(object_ptr->system_resource_ptr->full_queue->lockout_mutex);
 
+    SVT_VERIF_SRM(1, object_ptr->system_resource_ptr->full_queue, object_ptr, NULL, object_ptr->live_count, 0);
     svt_muxing_queue_object_push_back(object_ptr->system_resource_ptr->full_queue, object_ptr);
 
     svt_release_mutex(object_ptr->system_resource_ptr->full_queue->lockout_mutex);
@@ -570,9 +660,11 @@ EbErrorType svt_release_object(EbObjectWrapper *object_ptr) {
     object_ptr->live_count = (object_ptr->live_count == 0) ? object_ptr->live_count
                                                            : object_ptr->live_count - 1;
 
+    SVT_VERIF_SRM(5, object_ptr->system_resource_ptr->empty_queue, object_ptr, NULL, object_ptr->live_count, object_ptr->release_enable);
     if ((object_ptr->release_enable == EB_TRUE) && (object_ptr->live_count == 0)) {
         // Set live_count to EB_ObjectWrapperReleasedValue
         object_ptr->live_count = EB_ObjectWrapperReleasedValue;
+        SVT_VERIF_SRM(12, object_ptr->system_resource_ptr->empty_queue, object_ptr, NULL, 0, 1);
 
         svt_muxing_queue_object_push_front(object_ptr->system_resource_ptr->empty_queue,
                                            object_ptr);
@@ -618,6 +710,7 @@ EbErrorType svt_get_empty_object(EbFifo *empty_fifo_ptr, EbObjectWrapper **wrapp
 
     // Object release enable
     (*wrapper_dbl_ptr)->release_enable = EB_TRUE;
+    SVT_VERIF_SRM(3, empty_fifo_ptr->queue_ptr, *wrapper_dbl_ptr, empty_fifo_ptr, 0, 0);
 
     // Release Mutex
     svt_release_mutex(empty_fifo_ptr->lockout_mutex);
@@ -654,9 +747,11 @@ EbErrorType svt_get_full_object(EbFifo *full_fifo_ptr, EbObjectWrapper **wrapper
 
     if (!full_fifo_ptr->quit_signal) {
         svt_fifo_pop_front(full_fifo_ptr, wrapper_dbl_ptr);
+        SVT_VERIF_SRM(4, full_fifo_ptr->queue_ptr, *wrapper_dbl_ptr, full_fifo_ptr, *wrapper_dbl_ptr ? (*wrapper_dbl_ptr)->live_count : 0, 0);
     } else {
         *wrapper_dbl_ptr = NULL;
         return_error     = EB_NoErrorFifoShutdown;
+        SVT_VERIF_SRM(8, full_fifo_ptr->queue_ptr, NULL, full_fifo_ptr, 0, 0);
     }
 
     // Release Mutex
